@@ -249,6 +249,46 @@ def cross_on(env, inp):
     return None
 
 
+def check_overload(inp):
+    """Formulas assembled with the documented operators & | ~ from NAMED intermediate objects that are
+    used again (inv = f & g; spec1 = inv & h; spec2 = inv | h; spec3 = h & inv; ~inv): every one of them
+    is checked AFTER all of them were built and must get the answer of the same formula built by the
+    constructors (the Boolean laws make the grouping irrelevant), inv included."""
+    env = Env(inp['K'], inp.get('naming', 'int'), inp.get('how', 0))
+    f, g, h = fm.from_json(inp['f']), fm.from_json(inp['g']), fm.from_json(inp['h'])
+    for checker in inp.get('checkers', ('CTL', 'CTLS')):
+        L = fm.lang(checker)
+        if any(fm.kind(checker, t) != 'state' for t in (f, g, h)):
+            continue
+        try:
+            a, b, c = fm.to_lib(f, L), fm.to_lib(g, L), fm.to_lib(h, L)
+            inv = a & b
+            items = [('inv = f & g', inv, ('and', f, g))]
+            items.append(('spec1 = inv & h', inv & c, ('and', ('and', f, g), h)))
+            items.append(('spec2 = inv | h', inv | c, ('or', ('and', f, g), h)))
+            items.append(('spec3 = h & inv', c & inv, ('and', h, ('and', f, g))))
+            either = a | b
+            items.append(('either = f | g', either, ('or', f, g)))
+            items.append(('spec4 = either | h', either | c, ('or', ('or', f, g), h)))
+            items.append(('spec5 = either & inv', either & inv, ('and', ('or', f, g), ('and', f, g))))
+            items.append(('~inv', ~inv, ('not', ('and', f, g))))
+            items.append(('f again', a, f))
+        except Exception as e:
+            return Failure('overload', inp, 'formulas can be combined with & | ~', 'raised %s: %s' % (type(e).__name__, str(e)[:150]))
+        for what, obj, t in items:
+            try:
+                with core.quiet():
+                    got = mc.normalise(L.modelcheck(env.kripke, obj), env.back)
+            except Exception as e:
+                got = ('exc', type(e).__name__, str(e)[:100])
+            want = env.ask(checker, checker, 'obj', t)
+            if got != want:
+                return Failure('overload', inp, mc.show(want), mc.show(got),
+                               '%s.modelcheck of %s (built with operators from re-used objects) differs from the constructor-built %s'
+                               % (checker, what, fm.to_text(t)))
+    return None
+
+
 def apply_edit(env, ed):
     """The CALLER edits its structure object through the public API between questions:
     ['label', s, atom] toggles an atom in labels(s); ['relabel'] swaps p and q everywhere through
@@ -304,7 +344,7 @@ def check_cross_edit(inp):
     return None
 
 
-CHECKS = {'law': check_law, 'bool': check_bool, 'cross': check_cross, 'cross_edit': check_cross_edit}
+CHECKS = {'law': check_law, 'bool': check_bool, 'cross': check_cross, 'cross_edit': check_cross_edit, 'overload': check_overload}
 
 
 def replay(ctx, rec):
@@ -418,7 +458,7 @@ def random_shard(st, shard, nshards, payload):
     @hs.composite
     def cases(draw):
         K = draw(km.st_kripke(1, 5))
-        kind = draw(hs.sampled_from(['law', 'law', 'bool', 'cross', 'cross_edit']))
+        kind = draw(hs.sampled_from(['law', 'law', 'bool', 'cross', 'cross_edit', 'overload']))
         base = {'K': K, 'naming': draw(hs.sampled_from(NAMINGS)), 'how': draw(hs.integers(0, 5)), 'kind': kind}
         if kind == 'law':
             name = draw(hs.sampled_from(names))
@@ -435,6 +475,9 @@ def random_shard(st, shard, nshards, payload):
                    'LTL': fm.st_formula('ltl_path', max_depth=2, max_temporal=1),
                    'STAR': fm.st_formula('ctls_state', max_depth=3, max_temporal=2)}[fam]
             base.update(family=fam, f=draw(sub), g=draw(sub))
+        elif kind == 'overload':
+            sub = fm.st_formula('ctl', max_depth=2)
+            base.update(f=draw(sub), g=draw(sub), h=draw(sub))
         elif kind == 'cross_edit':
             sh = shared_fragment()
             base['f'] = sh[draw(hs.integers(0, len(sh) - 1))]
@@ -463,6 +506,8 @@ def random_shard(st, shard, nshards, payload):
             f = law_on(env, inp)
         elif kind == 'bool':
             f = bool_on(env, inp)
+        elif kind == 'overload':
+            f = check_overload(inp)
         elif kind == 'cross_edit':
             f = check_cross_edit(inp)
         else:
@@ -510,6 +555,31 @@ def edit_shard(st, shard, nshards, payload):
                         if st.failure is None:
                             st.failure = r
                         return
+
+
+def overload_shard(st, shard, nshards, payload):
+    ops = ctl_small()
+    i = -1
+    for n in payload['ns']:
+        for j, K in enumerate(km.scope(n)):
+            if j % payload['k_stride']:
+                continue
+            for x in range(0, len(ops) ** 3, payload['f_stride']):
+                i += 1
+                if i % nshards != shard:
+                    continue
+                f, g, h = ops[x % len(ops)], ops[(x // len(ops)) % len(ops)], ops[(x // len(ops) ** 2) % len(ops)]
+                inp = {'K': K, 'f': f, 'g': g, 'h': h, 'naming': NAMINGS[j % len(NAMINGS)], 'how': j % 6}
+                st.evaluations += 1
+                st.nontrivial += 1
+                st.bump('overload')
+                if i % 2999 == 0:
+                    st.sample(inp, cls='overload-n%d' % n)
+                r = check_overload(inp)
+                if r is not None:
+                    if st.failure is None:
+                        st.failure = r
+                    return
 
 
 def run(ctx):
@@ -565,6 +635,11 @@ def run(ctx):
                           'replace_labelling_function, add_edge), every %s combination: all checkers asked before and after each edit of the SAME structure object'
                           % (('%dth' % ep['k_stride']) if ep['k_stride'] > 1 else 'one', ('%dth' % ep['f_stride'])))
         f = core.run_sharded(ctx, edit_shard, ep)
+    if f is None:
+        op_ = {'ns': [1, 2], 'k_stride': ctx.pick(7, 1), 'f_stride': ctx.pick(37, 5)}
+        ctx.scopes.append('overload: formulas assembled with & | ~ from re-used named objects (inv = f & g; inv & h; inv | h; h & inv; ~inv ...) over '
+                          'operand triples of the CTL law table, checked after all were built, against the constructor-built formulas')
+        f = core.run_sharded(ctx, overload_shard, op_)
     if f is not None:
         ctx.violation(f)
         return
